@@ -1,6 +1,10 @@
 package rules
 
 import (
+	"os"
+	"fmt"
+	"strings"
+	"math/big"
 	"go/token"
 
 	"elyslint/core"
@@ -60,69 +64,33 @@ func checkVestedSoFar(P *core.Program, R *core.Report) {
 	ff := P.Facts(fn)
 	bad := ""
 	n := 0
+	// the result, in polynomial normal form with the clamp recognised as Min, must be
+	// ⌊Total · Min(height − StartBlock, NumBlocks) / NumBlocks⌋ — in whatever spelling
+	role := func(_ string, v ssa.Value) (string, bool) {
+		if v == nil {
+			return "", false
+		}
+		v = ff.Fwd(v)
+		for _, f := range [][2]string{{"TotalAmount", "TOTAL"}, {"NumBlocks", "N"}, {"StartBlock", "START"}} {
+			if _, is := fieldLoad(ff, v, f[0]); is {
+				return f[1], true
+			}
+		}
+		if c, ok := v.(*ssa.Call); ok && core.CalleeName(c.Common()) == "BlockHeight" {
+			return "HEIGHT", true
+		}
+		return "", false
+	}
+	want := core.ParseExpr("Trunc(TOTAL*Min(HEIGHT-START,N)/N)")
 	for _, ex := range ff.Exits() {
 		ret, ok := ex.Instr.(*ssa.Return)
 		if !ok || len(ret.Results) != 1 {
 			continue
 		}
 		n++
-		// Quo(Mul(Total, NewInt(t)), NewInt(NumBlocks))
-		qa, _, ok := mathCall(ff, ret.Results[0], "Quo")
-		if !ok || len(qa) != 2 {
-			bad = "result is not …Quo(…)"
-			continue
-		}
-		ma, _, ok := mathCall(ff, qa[0], "Mul")
-		if !ok || len(ma) != 2 {
-			bad = "numerator is not Total.Mul(…)"
-			continue
-		}
-		if _, isT := fieldLoad(ff, ma[0], "TotalAmount"); !isT {
-			bad = "numerator does not start from TotalAmount"
-		}
-		da, _, ok := mathCall(ff, qa[1], "NewInt")
-		if !ok || len(da) != 1 {
-			bad = "divisor is not NewInt(NumBlocks)"
-			continue
-		}
-		if _, isN := fieldLoad(ff, da[0], "NumBlocks"); !isN {
-			bad = "divisor is not NumBlocks"
-		}
-		ta, _, ok := mathCall(ff, ma[1], "NewInt")
-		if !ok || len(ta) != 1 {
-			bad = "multiplier is not NewInt(t)"
-			continue
-		}
-		phi, isPhi := ff.Fwd(ta[0]).(*ssa.Phi)
-		if !isPhi || len(phi.Edges) != 2 {
-			bad = "elapsed blocks are not clamped (no φ of elapsed / NumBlocks)"
-			continue
-		}
-		clampOK, rawOK := false, false
-		for i, e := range phi.Edges {
-			pred := phi.Block().Preds[i]
-			atoms := append(ff.At(pred.Instrs[len(pred.Instrs)-1]), edgeAtoms(ff, pred, phi.Block())...)
-			if _, isN := fieldLoad(ff, e, "NumBlocks"); isN {
-				// taken only when elapsed > NumBlocks: NumBlocks < elapsed
-				for _, a := range atoms {
-					if a.Rel == core.LT && a.B != nil {
-						if _, l := fieldLoad(ff, a.A, "NumBlocks"); l && isElapsed(ff, a.B) {
-							clampOK = true
-						}
-					}
-				}
-			} else if isElapsed(ff, e) {
-				for _, a := range atoms {
-					if a.Rel == core.LE && a.B != nil && isElapsed(ff, a.A) {
-						if _, l := fieldLoad(ff, a.B, "NumBlocks"); l {
-							rawOK = true
-						}
-					}
-				}
-			}
-		}
-		if !clampOK || !rawOK {
-			bad = "the clamp does not select NumBlocks exactly when elapsed > NumBlocks"
+		p, okR := ff.PolyOf(ret.Results[0]).Rename(role)
+		if !okR || !p.Equal(want) {
+			bad = "result is " + p.String()
 		}
 	}
 	R.Add("C14-schedule", key, "Total·min(elapsed,NumBlocks)/NumBlocks", P.Pos(fn.Pos()), bad == "" && n == 1, "VestedSoFar must follow the clamped linear schedule. "+bad)
@@ -244,98 +212,186 @@ func checkCancelVest(P *core.Program, R *core.Report) {
 		return
 	}
 	ff := P.Facts(fn)
-	// cancelAmount = MinInt(remaining, vesting.TotalAmount.Sub(vesting.ClaimedAmount))
-	var cancel *ssa.Call
-	var remainingPhi ssa.Value
-	var entry ssa.Value
+	// (1) the per-entry cancelled amount c: the amount an entry's TotalAmount is lowered by
+	var cancelP *core.Poly
+	var cancelAt ssa.Instruction
 	bad := ""
-	for _, c := range core.Calls(fn) {
-		args, call, ok := mathCall(ff, c.(ssa.Value), "MinInt")
-		if !ok || len(args) != 2 {
-			continue
-		}
-		cancel = call
-		remainingPhi = ff.Fwd(args[0])
-		sa, _, ok := mathCall(ff, args[1], "Sub")
-		if !ok || len(sa) != 2 {
-			bad = "cap is not Total.Sub(Claimed)"
-			continue
-		}
-		x1, ok1 := fieldLoad(ff, sa[0], "TotalAmount")
-		x2, ok2 := fieldLoad(ff, sa[1], "ClaimedAmount")
-		if !ok1 || !ok2 || x1 != x2 {
-			bad = "cap is not TotalAmount − ClaimedAmount of the same entry"
-		}
-		entry = x1
-	}
-	R.Add("C14-cancel", key, "cancelAmount = Min(remaining, Total − Claimed)", P.Pos(fn.Pos()), cancel != nil && bad == "", "per entry at most the not-yet-released part can be cancelled. "+bad)
-	if cancel == nil {
-		return
-	}
-	// Total -= cancelAmount (same entry) ; remaining -= cancelAmount ; remaining starts at msg.Amount
-	totalOK, remOK, startOK := false, false, false
 	for _, b := range fn.Blocks {
 		for _, in := range b.Instrs {
 			st, ok := in.(*ssa.Store)
 			if !ok {
 				continue
 			}
-			if fa, ok := st.Addr.(*ssa.FieldAddr); ok && core.FieldName(fa.X.Type(), fa.Field) == "TotalAmount" && core.NamedName(fa.X.Type()) == "VestingTokens" {
-				sa, _, ok := mathCall(ff, st.Val, "Sub")
-				if ok && len(sa) == 2 && ff.Fwd(sa[1]) == ssa.Value(cancel) {
-					if x, l := fieldLoad(ff, sa[0], "TotalAmount"); l && x == entry && ff.Fwd(fa.X) == entry {
-						totalOK = true
+			fa, ok := st.Addr.(*ssa.FieldAddr)
+			if !ok || core.FieldName(fa.X.Type(), fa.Field) != "TotalAmount" || core.NamedName(fa.X.Type()) != "VestingTokens" {
+				continue
+			}
+			var oldLoad ssa.Value
+			ff.LeafKey = func(v ssa.Value) (string, bool) {
+				if ld, ok := v.(*ssa.UnOp); ok && ld.Op == token.MUL && sameLocation(ff, ld.X, fa) && oldLoad == nil {
+					oldLoad = v
+				}
+				return "", false
+			}
+			whole := ff.PolyOf(st.Val)
+			ff.LeafKey = nil
+			if oldLoad == nil {
+				bad = "TotalAmount is overwritten, not lowered"
+				continue
+			}
+			oldP := ff.PolyOf(oldLoad)
+			cancelP = oldP.Sub(whole)
+			if whole.Sub(oldP).Add(cancelP).IsZero() == false || len(oldP.T) != 1 {
+				bad = "TotalAmount is overwritten, not lowered"
+				continue
+			}
+			for m := range oldP.T {
+				if c, has := whole.T[m]; !has || c.Cmp(big.NewRat(1, 1)) != 0 {
+					bad = "TotalAmount is overwritten, not lowered"
+				}
+			}
+			cancelAt = in
+			// the cancelled amount is Min(anything, TotalAmount − ClaimedAmount) of this very entry
+			capOK := false
+			for k := range cancelP.T {
+				if oq := cancelP.Opq[k]; oq != nil && oq.Op == "Min" && len(cancelP.T) == 1 {
+					for _, a := range oq.Args {
+						ra, okR := a.Rename(func(_ string, v ssa.Value) (string, bool) {
+							if v == nil {
+								return "", false
+							}
+							if x, l := fieldLoad(ff, v, "TotalAmount"); l && x == ff.Fwd(fa.X) {
+								return "TOTAL", true
+							}
+							if x, l := fieldLoad(ff, v, "ClaimedAmount"); l && x == ff.Fwd(fa.X) {
+								return "CLAIMED", true
+							}
+							return "", false
+						})
+						if okR && ra.Equal(core.ParsePoly("TOTAL - CLAIMED")) {
+							capOK = true
+						}
 					}
 				}
 			}
+			R.Add("C14-cancel", key, "cancelAmount = Min(·, Total − Claimed)", P.Pos(P.InstrPos(in)), capOK,
+				"per entry at most the not-yet-released part (TotalAmount − ClaimedAmount of the same entry) can be cancelled; TotalAmount is lowered by "+cancelP.String())
 		}
 	}
-	if phi, ok := remainingPhi.(*ssa.Phi); ok {
-		for _, e := range phi.Edges {
-			if sa, _, ok := mathCall(ff, e, "Sub"); ok && len(sa) == 2 && ff.Fwd(sa[1]) == ssa.Value(cancel) && ff.Fwd(sa[0]) == remainingPhi {
-				remOK = true
-			}
-			if ff.AllOrigins(e, nil, func(o core.Origin) bool { return o.Kind == "param" && o.Name == "msg" && o.Path == ".Amount" }) {
-				startOK = true
-			}
-			if inner, isPhi := ff.Fwd(e).(*ssa.Phi); isPhi {
-				for _, e2 := range inner.Edges {
-					if sa, _, ok := mathCall(ff, e2, "Sub"); ok && len(sa) == 2 && ff.Fwd(sa[1]) == ssa.Value(cancel) {
-						remOK = true
-					}
-				}
+	if cancelP == nil {
+		R.Add("C14-cancel", key, "Total −= cancelAmount", P.Pos(fn.Pos()), false, "no entry's TotalAmount is lowered (anchor changed). "+bad)
+		return
+	}
+	R.Add("C14-cancel", key, "Total −= cancelAmount", P.Pos(P.InstrPos(cancelAt)), bad == "", "the entry's TotalAmount is lowered by exactly the cancelled amount. "+bad)
+	// (2) the Eden credited back equals Σ cancelled amounts, modulo the equalities that hold
+	// where it is credited (remaining == 0 with remaining = msg.Amount − Σ cancelled)
+	// the SSA value of the per-entry cancelled amount
+	var cancelV ssa.Value
+	if len(cancelP.T) == 1 {
+		for m, c := range cancelP.T {
+			if c.Cmp(big.NewRat(1, 1)) == 0 {
+				cancelV = cancelP.Leaf[m]
 			}
 		}
 	}
-	R.Add("C14-cancel", key, "Total −= cancelAmount", P.Pos(fn.Pos()), totalOK, "the entry's TotalAmount is lowered by exactly the cancelled amount")
-	R.Add("C14-cancel", key, "remaining −= cancelAmount from msg.Amount", P.Pos(fn.Pos()), remOK && startOK, "the remaining counter starts at msg.Amount and is lowered by exactly each cancelled amount")
-	// AddClaimed(Eden, msg.Amount) only under remaining == 0
+	// isSumOfCancel: the opaque leaf k of p is Σ over the loop of exactly that value
+	isSumOfCancel := func(p *core.Poly, k string) bool {
+		oq := p.Opq[k]
+		if oq == nil || !strings.HasPrefix(oq.Op, "Sum@") || len(oq.Args) != 1 || len(oq.Args[0].T) != 1 || cancelV == nil {
+			return false
+		}
+		for m, c := range oq.Args[0].T {
+			if c.Cmp(big.NewRat(1, 1)) == 0 && oq.Args[0].Leaf[m] != nil && ff.Fwd(oq.Args[0].Leaf[m]) == ff.Fwd(cancelV) {
+				return true
+			}
+		}
+		return false
+	}
 	n := 0
-	for _, c := range core.Calls(fn) {
-		if !calleeMatches(P, c, "x/commitment/types.Commitments.AddClaimed") {
-			continue
-		}
+	credit := func(at ssa.Instruction, coin ssa.Value) {
 		n++
-		zero := false
-		for _, a := range ff.At(c) {
-			if a.Rel == core.EQ && a.B == core.ZeroMarker {
-				if v := ff.Fwd(a.A); v == remainingPhi || isPhiOf(v, remainingPhi) || isPhiOf(remainingPhi, v) {
-					zero = true
+		amt := ff.PolyOf(coin)
+		ok := false
+		detail := "credited " + amt.String()
+		// direct: credited == Σ c
+		if len(amt.T) == 1 {
+			for k, c := range amt.T {
+				if c.Cmp(big.NewRat(1, 1)) == 0 && isSumOfCancel(amt, k) {
+					ok = true
 				}
 			}
 		}
-		amtOK := false
-		if lin := ff.LinOf(c.Common().Args[1]); len(lin) == 1 {
-			for t := range lin {
-				amtOK = t == "*msg.Amount"
+		// through an equality fact E == 0 with E = credited − Σ c (up to sign)
+		for _, a := range ff.At(at) {
+			if ok || a.Rel != core.EQ || a.A == nil || a.B == nil || a.B == core.NilMarker {
+				continue
+			}
+			var e *core.Poly
+			switch {
+			case a.B == core.ZeroMarker && core.IsMathType(a.A.Type()):
+				e = ff.PolyOf(a.A)
+			case a.A == core.ZeroMarker && core.IsMathType(a.B.Type()):
+				e = ff.PolyOf(a.B)
+			case a.A != core.ZeroMarker && a.B != core.ZeroMarker && core.IsMathType(a.A.Type()) && core.IsMathType(a.B.Type()):
+				e = ff.PolyOf(a.A).Sub(ff.PolyOf(a.B))
+			default:
+				continue
+			}
+			if os.Getenv("ELYSLINT_POLY_DEBUG") != "" {
+				fmt.Fprintf(os.Stderr, "c14 credit fact %s: e=%s credited=%s\n", ff.AtomString(a), e, amt)
+			}
+			// e == ±(credited − Σ c): remove the Σ c term and compare the rest with ±credited
+			for k, c := range e.T {
+				if !isSumOfCancel(e, k) {
+					continue
+				}
+				rest := e.Clone()
+				delete(rest.T, k)
+				switch {
+				case c.Cmp(big.NewRat(-1, 1)) == 0 && rest.Equal(amt):
+					ok = true
+				case c.Cmp(big.NewRat(1, 1)) == 0 && rest.Equal(amt.Neg()):
+					ok = true
+				}
+				if ok {
+					detail += "; fact " + ff.AtomString(a)
+				}
 			}
 		}
-		R.Add("C14-cancel", key, "AddClaimed(Eden, msg.Amount) under remaining == 0", P.Pos(P.InstrPos(c)), zero && amtOK,
-			"Eden is returned only when the whole requested amount was cancelled from not-yet-released vesting, and exactly that amount")
+		R.Add("C14-cancel", key, "Eden credited = Σ cancelled", P.Pos(P.InstrPos(at)), ok,
+			"Eden is returned only in the amount that was cancelled from not-yet-released vesting (directly, or msg.Amount under remaining == 0 with remaining = msg.Amount − Σ cancelled). "+detail)
+	}
+	for _, c := range core.Calls(fn) {
+		if calleeMatches(P, c, "x/commitment/types.Commitments.AddClaimed") {
+			credit(c, c.Common().Args[1])
+		}
+	}
+	for _, b := range fn.Blocks {
+		for _, in := range b.Instrs {
+			st, ok := in.(*ssa.Store)
+			if !ok {
+				continue
+			}
+			if fa, ok := st.Addr.(*ssa.FieldAddr); ok && core.FieldName(fa.X.Type(), fa.Field) == "Claimed" && core.NamedName(fa.X.Type()) == "Commitments" {
+				// Claimed = Claimed.Add(coin…)
+				if args, _, isAdd := coinsCall(ff, st.Val, "Add"); isAdd && len(args) == 2 {
+					credit(in, args[1])
+				}
+			}
+		}
 	}
 	if n != 1 {
-		R.Add("C14-cancel", key, "AddClaimed", P.Pos(fn.Pos()), false, "expected exactly one AddClaimed")
+		R.Add("C14-cancel", key, "credit", P.Pos(fn.Pos()), false, "expected exactly one credit of claimed Eden")
 	}
+}
+
+// coinsCall: v is a static call of an sdk.Coins method `name`; returns args.
+func coinsCall(ff *core.FuncFacts, v ssa.Value, name string) ([]ssa.Value, *ssa.Call, bool) {
+	c, ok := ff.Fwd(v).(*ssa.Call)
+	if !ok || c.Common().IsInvoke() || c.Common().StaticCallee() == nil || c.Common().StaticCallee().Name() != name {
+		return nil, nil, false
+	}
+	return c.Common().Args, c, true
 }
 
 func isPhiOf(phi, v ssa.Value) bool {
